@@ -148,7 +148,26 @@ def r7_mut_self(text, log):
     return text[:bo + 1] + "\n        let mut this = self;" + "".join(out) + text[bc:]
 
 
-STRUCTURAL = {"R5": r5_for_bytes, "R7": r7_mut_self}
+def r0_named_return(text, log):
+    """R0: `fn f(..) -> T {` -> `fn f(..) -> (r: T) {` (Verus names the result in the signature)."""
+    m = L.mask(text)
+    mt = re.search(r"\bfn\s+\w+", m)
+    if not mt:
+        raise Lost("R0: no fn")
+    po = m.index("(", mt.end())
+    pc = L.match_close(m, po)
+    bo = L.depth0_find(m, pc + 1, len(m), "{;")
+    arrow = m.find("->", pc, bo)
+    if arrow < 0:
+        raise Lost("R0: fn has no return type")
+    wh = re.search(r"\bwhere\b", m[arrow:bo])
+    end = arrow + wh.start() if wh else bo
+    ty = text[arrow + 2:end].strip()
+    log.append({"rule": "R0-named-return", "before": "-> " + ty, "after": f"-> (r: {ty})"})
+    return text[:arrow] + f"-> (r: {ty}) " + text[end:]
+
+
+STRUCTURAL = {"R5": r5_for_bytes, "R7": r7_mut_self, "R0": r0_named_return}
 
 
 def apply_rewrites(text, rewrites, log):
@@ -227,6 +246,13 @@ def splice(text, unit):
 
 
 def extract_unit(repo, unit, log, canary=False):
+    try:
+        return _extract_unit(repo, unit, log, canary)
+    except Lost as e:
+        raise Lost(f"unit {unit['name']}: {e}")
+
+
+def _extract_unit(repo, unit, log, canary=False):
     path = f"{repo}/{unit['file']}"
     try:
         src = open(path, encoding="utf-8").read()
@@ -271,6 +297,11 @@ def extract_unit(repo, unit, log, canary=False):
             bo, bc = fn_body_open(text, unit.get("fn"))
             ulog.append({"rule": "R16-opaque-body", "before": "<body of %s>" % unit["name"], "after": "unimplemented!()"})
             text = text[:bo] + "{ unimplemented!() }" + text[bc + 1:]
+            text = re.sub(r"\(\s*mut\s+self\b", "(self", text, count=1)
+            mm = L.mask(text)
+            fm = re.search(r"\bfn\s+" + (re.escape(unit["fn"]) if unit.get("fn") else r"\w+") + r"\b", mm)
+            ls = text.rfind("\n", 0, fm.start()) + 1
+            text = text[:ls] + "#[verifier::external_body]\n" + text[ls:]
         u = dict(unit)
         if canary:
             u["contract"] = canary_contract(unit["contract"])
@@ -284,8 +315,7 @@ def extract_unit(repo, unit, log, canary=False):
     if unit.get("derive"):
         ulog.append({"rule": "R2-derive", "before": "<derive list dropped by R2-attr>", "after": f"#[derive({unit['derive']})]"})
         pre = pre + f"\n#[derive({unit['derive']})]"
-    if unit.get("opaque"):
-        pre = pre + "\n#[verifier::external_body]"
+
     if not canary:
       log.append({"unit": unit["name"], "file": unit["file"], "path": unit["path"],
                 "source_lines": [src.count("\n", 0, s) + 1, src.count("\n", 0, e) + 1],
@@ -303,3 +333,11 @@ def canary_contract(contract):
     tail = c[dec.start():] if dec and (not mt or dec.start() > mt.start()) else ""
     head = c[:mt.start()] if mt else (c[:dec.start()] if dec else c)
     return head.rstrip() + "\n    ensures false, // CANARY\n" + tail
+
+
+def can_canary(repo, unit):
+    """canary copies are renamed fns: only free fns / inherent methods (not items of a trait impl)"""
+    if unit.get("slice"):
+        return True
+    last = unit["path"][-1]
+    return "fn" in last and not re.search(r"\bimpl\b.*\bfor\b", unit["path"][0] if len(unit["path"]) > 1 and not unit.get("wrap") else "")
